@@ -118,6 +118,45 @@ theorem csv_header_block_roundtrip (f : CsvFmt) (geo : Bool) (pf : List Tok) (na
       = .ok (rows.map (fun ra => expRow f geo pf ra.1)) :=
   TV.TextIO.csv_header_block_roundtrip f geo pf naf rows hv hsep hnl htime hrows hafs pre cm hpre hcm
 
+/-- **front end** `writeToCsv_roundtrip`: `TrackWriter.writeToCsv(track, path, track_format)` writes what `writeToFile` writes
+with the column ids, separator and `header` of the TrackFormat (no feature column: `track_format.af_names` is always empty),
+so the file is read back by `readFromCsv` with any header count up to the number of header lines written, under the
+hypotheses of `csv_file_roundtrip`. -/
+theorem writeToCsv_roundtrip (f : CsvFmt) (geo : Bool) (pf : List Tok) (h : Nat) (rows : List Row) (srid : Str)
+    (hv : ValidIds f) (hsep : numChar f.sep = false) (hnl : f.sep ≠ '\n') (htime : f.idT ≠ -1 → TimeOK pf f.sep)
+    (hrows : ∀ r ∈ rows, RowOK f geo pf r) (hsrid : '\n' ∉ srid) :
+    ∃ text, writeToCsv f geo pf h rows srid = .ok text ∧
+      ∀ hr, hr ≤ (if h = 0 then 0 else 3) → readCsv f pf hr text = .ok (rows.map (expRow f geo pf)) := by
+  obtain ⟨text, hw, hr⟩ := csv_file_roundtrip f geo pf h 0 (rows.map (fun r => (r, []))) srid [] hv hsep hnl htime
+    (by intro ra hra; obtain ⟨r, hr', rfl⟩ := List.mem_map.1 hra; exact hrows r hr')
+    (by intro ra hra v hv'; obtain ⟨r, _, rfl⟩ := List.mem_map.1 hra; simp at hv')
+    ⟨hsrid, by simp⟩
+  refine ⟨text, hw, fun k hk => ?_⟩
+  rw [hr k hk, List.map_map]
+  rfl
+
+/-- `writeToCsv(collection, dir, track_format)` (= `writeToFiles`): one file per track, each of which is read back as its
+track. -/
+theorem writeToCsv_collection_roundtrip (f : CsvFmt) (geo : Bool) (pf : List Tok) (h : Nat) (tracks : List (List Row)) (srid : Str)
+    (hv : ValidIds f) (hsep : numChar f.sep = false) (hnl : f.sep ≠ '\n') (htime : f.idT ≠ -1 → TimeOK pf f.sep)
+    (hrows : ∀ rows ∈ tracks, ∀ r ∈ rows, RowOK f geo pf r) (hsrid : '\n' ∉ srid) :
+    ∃ texts, writeToCsvColl f geo pf h tracks srid = .ok texts ∧ texts.length = tracks.length ∧
+      ∀ i (h1 : i < texts.length) (h2 : i < tracks.length), ∀ hr, hr ≤ (if h = 0 then 0 else 3) →
+        readCsv f pf hr texts[i] = .ok (tracks[i].map (expRow f geo pf)) := by
+  induction tracks with
+  | nil => exact ⟨[], rfl, rfl, fun i h1 => absurd h1 (by simp)⟩
+  | cons rows rest ih =>
+    obtain ⟨text, hw, hr⟩ := writeToCsv_roundtrip f geo pf h rows srid hv hsep hnl htime (hrows rows (by simp)) hsrid
+    obtain ⟨texts, hws, hlen, hrs⟩ := ih (fun rs hrs' => hrows rs (by simp [hrs']))
+    refine ⟨text :: texts, ?_, by simp [hlen], ?_⟩
+    · unfold writeToCsvColl at hws ⊢
+      rw [List.mapM_cons, hw, hws]
+      rfl
+    · intro i h1 h2 k hk
+      cases i with
+      | zero => exact hr k hk
+      | succ j => exact hrs j (by simpa using h1) (by simpa using h2) k hk
+
 /-- **T2 (feature columns)** `csv_read_all_roundtrip`: a track written by `writeToFile` with its header block (`h > 0`)
 and the feature columns `af_names = names` — values of any kind (`AFVal`: int, float on a decimal lattice, str, nan, ±inf)
 whose text is one field of the line (`AFOK`), names that are good fields, distinct and not refused by the track (`NameOK`),
@@ -207,14 +246,22 @@ theorem gpx_file_roundtrip (rf : List Tok) (hrf : ReadsIso rf) (geo : Bool) (nam
 /-- **GPX with extensions** `gpx_af_file_roundtrip`: the text `writeToGpx(track, path, af=True)` writes — every point followed
 by an `<extensions>` block with one line `<name>str(value)</name>` per analytical feature — is read by the `trk` scanner as the
 same single track with the same points in order (the reader does not read the feature values: `read_all` is ignored for GPX).
-Hypothesis on every extension line (`ExtOK`): it is one line and contains none of the six texts the scanner looks for
-(`<trk>`, `</trk>`, `<trkpt `, `</trkpt>`, `<ele>`, `<time>`) — true of ordinary names, false of a feature named `time` or
-`ele`, whose line the scanner takes for the timestamp / the elevation (counter-example below). -/
+The scanner skips the lines from `<extensions>` to `</extensions>`, so the names of the features do not matter: a feature
+called `time`, `ele`, `trk` or `trkpt` is no longer taken for the point's own tag. Hypothesis on every extension line
+(`ExtOK`): it is one line and does not itself contain `</extensions>` (which would end the block early);
+`gpx_af_names_ok` gives a simple sufficient condition on names and values. -/
 theorem gpx_af_file_roundtrip (rf : List Tok) (hrf : ReadsIso rf) (geo : Bool) (name : Str)
     (hname : '<' ∉ name ∧ '\n' ∉ name) (rows : List (GRow × List (Str × AFVal)))
     (hrows : ∀ ra ∈ rows, Fits ra.1.t ∧ ∀ a ∈ ra.2, ExtOK a.1 a.2) :
     readGpx rf geo (gpxBodyAF name rows) = .ok [rows.map (fun ra => expG rf geo ra.1)] :=
   TV.TextIO.gpx_af_file_roundtrip rf hrf geo name hname rows hrows
+
+/-- `gpx_af_names_ok`: every feature whose name holds no `<`, `>`, newline, does not start with `/` and is not `extensions`
+itself, and whose value text holds no `<` and no newline, satisfies `ExtOK` — whatever the name otherwise is (`time`, `ele`,
+`trk`, `trkpt` included). -/
+theorem gpx_af_names_ok (n : Str) (v : AFVal) (h1 : '<' ∉ n) (h2 : '>' ∉ n) (h3 : '\n' ∉ n) (h4 : '<' ∉ afText v)
+    (h5 : '\n' ∉ afText v) (h6 : n.head? ≠ some '/') (h7 : n ≠ "extensions".toList) : ExtOK n v :=
+  extOK_of n v h1 h2 h3 h4 h5 h6 h7
 
 /-- the two read formats the callers use for GPX files read ISO stamps; with them the calendar part of the
 timestamp comes back unchanged -/
@@ -240,7 +287,7 @@ theorem fits_of_wf (t : Stamp) (h : WFs t) (hy : t.d.year < 10000) : Fits t := b
     unfold monthDays; split <;> (try split) <;> omega
   exact ⟨hy, by omega, by omega, by omega, by omega, by omega, hms⟩
 
-/-- **T4 `wkt_roundtrip`**: for a non-empty ENU/Geo track whose planimetric coordinates are `n / 10^d`
+/-- **T4 `wkt_roundtrip`**: for a non-empty ENU, Geo or ECEF track whose first two coordinates (E N / lon lat / X Y) are `n / 10^d`
 (printed by `str(float)` as the decimal without trailing zeros, `reprDec`), `TrackReader.parseWkt(track.toWKT())`
 returns the same number of vertices in the same order, each with the coordinates written (`expVertex`:
 `float()` of the printed decimals, third coordinate 0). -/
@@ -348,15 +395,18 @@ time format is split, and the timestamp written last reads back as `ObsTime()` (
 example : (readCsv ⟨0, 1, -1, 2, ' '⟩ (tokenize "2D/2M/4Y 2h:2m:2s".toList) 0 "1.000 2.000 31/01/2020 23:59:59\n".toList).toOption
     = some [⟨(1000, 3), (2000, 3), (0, 0), epoch⟩] := by decide +kernel
 
-/-- ordinary feature names and values give extension lines the scanner steps over -/
-example : ExtOK "speed".toList (.dec 2 125) ∧ ExtOK "k&".toList (.int 12) ∧ ExtOK "mode".toList (.str "walk".toList) := by
-  refine ⟨⟨?_, by decide⟩, ⟨?_, by decide⟩, ⟨?_, by decide⟩⟩ <;> (constructor <;> decide)
-/-- counter-example documenting `ExtOK`: a feature named `time` makes the scanner read `<time>12</time>` as the timestamp
-of the point (ValueError on the empty month field) -/
-example : ¬ ExtOK "time".toList (.int 12) ∧
-    (readGpx isoFmt true (gpxBodyAF "0".toList [(⟨⟨false, 100000000⟩, ⟨false, 200000000⟩, ⟨false, 0⟩, ⟨⟨2020, 1, 2, 3, 4, 5⟩, 0⟩⟩,
-      [("time".toList, .int 12)])])).toOption = none := by
-  refine ⟨fun h => absurd h.1.time (by decide), by decide +kernel⟩
+/-- feature names and values of every ordinary kind - the names of the point's own tags included - give extension lines the
+scanner skips -/
+example : ExtOK "speed".toList (.dec 2 125) ∧ ExtOK "time".toList (.int 12) ∧ ExtOK "ele".toList (.str "walk".toList) :=
+  ⟨gpx_af_names_ok _ _ (by decide) (by decide) (by decide) (by decide +kernel) (by decide +kernel) (by decide) (by decide),
+   gpx_af_names_ok _ _ (by decide) (by decide) (by decide) (by decide +kernel) (by decide +kernel) (by decide) (by decide),
+   gpx_af_names_ok _ _ (by decide) (by decide) (by decide) (by decide) (by decide) (by decide) (by decide)⟩
+/-- a point whose features are called `time` and `ele` reads back with its own timestamp and elevation -/
+example : (readGpx isoFmt true (gpxBodyAF "0".toList [(⟨⟨false, 100000000⟩, ⟨false, 200000000⟩, ⟨false, 350000000⟩, ⟨⟨2020, 1, 2, 3, 4, 5⟩, 0⟩⟩,
+      [("time".toList, .int 12), ("ele".toList, .int 7)])])).toOption
+    = some [[⟨(100000000, 8), (200000000, 8), (350000000, 8), ⟨⟨2020, 1, 2, 3, 4, 5⟩, 0⟩⟩]] := by decide +kernel
+/-- the one name that is excluded: a feature called `extensions` closes the block on its own line -/
+example : ¬ ExtOK "extensions".toList (.int 1) := fun h => absurd h.1 (by decide +kernel)
 
 /-- a network line and a WKT text -/
 example : netRow ',' 3 ⟨"e1".toList, "a".toList, "b".toList, -1, [(0, 0), (1500, -2250)]⟩
